@@ -163,8 +163,16 @@ def r6_4(ctx):
     ctx.end()
 
 
+def r6_5(ctx):
+    """'eligible' in the idle-worker clause is C04's notion: the allocator must use exactly those predicates (shared rules)."""
+    from .C04 import r4_1, r4_2
+    r4_1(ctx)
+    r4_2(ctx)
+
+
 def run(ctx):
     r6_1(ctx)
     r6_2(ctx)
     r6_3(ctx)
     r6_4(ctx)
+    r6_5(ctx)
